@@ -85,6 +85,7 @@ structure CI (b : Nat) (h0 h : Heap) (m : Memo) : Prop where
   old : ∀ x, x < b → h.get? x = h0.get? x
   size : b ≤ h.size
   pairs : ∀ p, p ∈ m → p.1 < b ∧ b ≤ p.2 ∧ p.2 < h.size
+  inj : ∀ p q, p ∈ m → q ∈ m → p.2 = q.2 → p = q
 
 /-- the pair is finished: the new object is the old one replaced through the memo -/
 def Done (h0 h : Heap) (m : Memo) (p : Nat × Nat) : Prop :=
@@ -122,7 +123,7 @@ theorem Spec.trans {b : Nat} {h0 h h1 h2 : Heap} {m m1 m2 : Memo} (s1 : Spec b h
 
 theorem CI.push {b : Nat} {h0 h : Heap} {m : Memo} (hi : CI b h0 h m) (a : Nat) (ha : a < b) (o : HObj) :
     CI b h0 (h.push o) ((a, h.size) :: m) := by
-  refine ⟨?_, ?_, ?_⟩
+  refine ⟨?_, ?_, ?_, ?_⟩
   · intro x hx
     rw [get?_push]
     have : x ≠ h.size := by have := hi.size; omega
@@ -134,10 +135,17 @@ theorem CI.push {b : Nat} {h0 h : Heap} {m : Memo} (hi : CI b h0 h m) (a : Nat) 
     · subst e; simp; exact ⟨ha, hi.size⟩
     · have := hi.pairs p e
       simp; omega
+  · -- the new pair's value is the next free address: above every value the memo holds
+    intro p q hp hq hpq
+    rcases List.mem_cons.mp hp with e1 | e1 <;> rcases List.mem_cons.mp hq with e2 | e2
+    · rw [e1, e2]
+    · subst e1; have := (hi.pairs q e2).2.2; simp at hpq; omega
+    · subst e2; have := (hi.pairs p e1).2.2; simp at hpq; omega
+    · exact hi.inj p q e1 e2 hpq
 
 theorem CI.set {b : Nat} {h0 h : Heap} {m : Memo} (hi : CI b h0 h m) (a' : Nat) (ha : b ≤ a') (o : HObj) :
     CI b h0 (h.set a' o) m := by
-  refine ⟨?_, ?_, ?_⟩
+  refine ⟨?_, ?_, ?_, hi.inj⟩
   · intro x hx
     rw [get?_set]
     have : ¬ (a' = x ∧ a' < h.size) := by omega
@@ -276,6 +284,24 @@ theorem copy_spec (b : Nat) (h0 : Heap) (hcl : ∀ a o, a < b → h0.get? a = so
             exact ⟨s1.trans s2, ViaL.cons (v1.mono s2.ext) l2⟩
           · simp at hh
 
+
+/-- **the copy preserves the aliasing structure**: through the final memo, two addresses of the original go to the same new
+    address exactly when they are the same address — two paths to one object stay two paths to one object, two objects
+    stay two objects -/
+theorem memo_preserves_sharing {b : Nat} {h0 h : Heap} {m : Memo} (hi : CI b h0 h m) {a1 a2 : Nat} {p1 p2 : Nat × Nat}
+    (h1 : m.get a1 = some p1) (h2 : m.get a2 = some p2) : p1.2 = p2.2 ↔ a1 = a2 := by
+  obtain ⟨m1, e1⟩ := Memo.get_mem h1
+  obtain ⟨m2, e2⟩ := Memo.get_mem h2
+  constructor
+  · intro hv
+    have := hi.inj p1 p2 m1 m2 hv
+    rw [← e1, ← e2, this]
+  · intro ha
+    subst ha
+    rw [h1] at h2
+    injection h2 with h2
+    rw [h2]
+
 /-! ### content: unfolding a value to a tree of bounded depth -/
 
 inductive Tree
@@ -413,7 +439,7 @@ theorem deepcopy'_unfold (h : Heap) (v v' : Val) (h' : Heap) (hcl : Closed h) (h
     simp only [Except.ok.injEq, Prod.mk.injEq] at hc
     obtain ⟨rfl, rfl⟩ := hc
     have hcl' : ∀ a o, a < h.size → h.get? a = some o → ObjLt h.size o := fun a o _ hg => hcl a o hg
-    have hi0 : CI h.size h h [] := ⟨fun _ _ => rfl, Nat.le_refl _, fun p hp => by cases hp⟩
+    have hi0 : CI h.size h h [] := ⟨fun _ _ => rfl, Nat.le_refl _, fun p hp => (by cases hp), fun p _ hp _ _ => (by cases hp)⟩
     obtain ⟨s1, via1⟩ := (copy_spec h.size h hcl' _).1 _ _ _ _ _ _ hr hi0 hv
     have hdone : ∀ p, p ∈ m1 → Done h h1 m1 p := by
       intro p hp
@@ -422,5 +448,25 @@ theorem deepcopy'_unfold (h : Heap) (v v' : Val) (h' : Heap) (hcl : Closed h) (h
       · exact hd
     intro n
     exact ⟨unfold_via hcl' hdone n v v1 via1 hv, unfold_frame s1.ci.old hcl' n v hv⟩
+  · simp [U] at hc
+
+/-- **deepcopy preserves sharing**: the copy is the original with every address replaced through one injective map — -/
+theorem deepcopy'_sharing (h : Heap) (v v' : Val) (h' : Heap) (hcl : Closed h) (hv : RefsLt h.size v)
+    (hc : deepcopy' h v = .ok (v', h')) :
+    ∃ m : Memo, Via m v v' ∧ (∀ p, p ∈ m → Done h h' m p) ∧
+      ∀ a1 a2 p1 p2, m.get a1 = some p1 → m.get a2 = some p2 → (p1.2 = p2.2 ↔ a1 = a2) := by
+  unfold deepcopy' at hc
+  split at hc
+  · rename_i v1 h1 m1 hr
+    simp only [Except.ok.injEq, Prod.mk.injEq] at hc
+    obtain ⟨rfl, rfl⟩ := hc
+    have hcl' : ∀ a o, a < h.size → h.get? a = some o → ObjLt h.size o := fun a o _ hg => hcl a o hg
+    have hi0 : CI h.size h h [] := ⟨fun _ _ => rfl, Nat.le_refl _, fun p hp => (by cases hp), fun p _ hp _ _ => (by cases hp)⟩
+    obtain ⟨s1, via1⟩ := (copy_spec h.size h hcl' _).1 _ _ _ _ _ _ hr hi0 hv
+    refine ⟨m1, via1, ?_, fun a1 a2 p1 p2 g1 g2 => memo_preserves_sharing s1.ci g1 g2⟩
+    intro p hp
+    rcases s1.fresh p hp with e | ⟨_, hd⟩
+    · cases e
+    · exact hd
   · simp [U] at hc
 end Sq
